@@ -968,3 +968,273 @@ func runOptionForwardedWhenPresent(c *Ctx) {
 	}
 	c.Anchor("C27.R8", "conditionally forwarded control message fields", n >= 1)
 }
+
+func init() {
+	r4doc("C33", "C33.R7", "sibling agreement: join and leave messages carry their own type prefix on every publish branch")
+	round3Hooks["C33"] = append(round3Hooks["C33"], runJoinLeavePrefixes)
+	r4doc("C36", "C36.R9", "wrong sibling value: connection expiry uses the connection grace delay, subscription expiry the subscription one")
+	round3Hooks["C36"] = append(round3Hooks["C36"], runExpiryDelayRoles)
+	r4doc("C39", "C39.R7", "K2: every publication withheld while the recovered list is built leaves a placeholder, whichever filter withheld it")
+	round3Hooks["C39"] = append(round3Hooks["C39"], runWithheldLeavesPlaceholder)
+}
+
+// runJoinLeavePrefixes (C33.R7): publishJoin and publishLeave frame their message with a type prefix on two
+// branches (PUBLISH and sharded SPUBLISH). Each function references its own prefix variable only: a leave
+// framed with the join prefix on one branch is dispatched as a join by the receiving node.
+func runJoinLeavePrefixes(c *Ctx) {
+	w := c.W
+	n := 0
+	for _, pair := range [][2]string{{"(*RedisBroker).publishJoin", "leaveTypePrefix"}, {"(*RedisBroker).publishLeave", "joinTypePrefix"}} {
+		fn := w.Func("centrifuge", pair[0])
+		if fn == nil {
+			continue
+		}
+		n++
+		bad := ""
+		EachInstr(fn, func(in ssa.Instruction) {
+			for _, op := range in.Operands(nil) {
+				if g, ok := (*op).(*ssa.Global); ok && g.Name() == pair[1] {
+					bad = w.InstrPos(in)
+				}
+			}
+		})
+		c.CheckAt("C33.R7", pair[0]+": uses its own type prefix on every branch", w.Pos(fn.Pos()), bad == "",
+			"the message is framed with "+pair[1]+" on one branch (at "+bad+"): the receiving node dispatches a leave as a join (or the reverse) for that PUB/SUB mode only")
+	}
+	c.Anchor("C33.R7", "publishJoin / publishLeave", n == 2)
+}
+
+// runExpiryDelayRoles (C36.R9): Config has two grace delays of the same type. The connection expiry timer
+// (scheduleOnConnectTimers, handleRefresh, Client.Refresh — every function that calls addExpireUpdate) may
+// read ClientExpiredCloseDelay only; the subscription expiry check gets ClientExpiredSubCloseDelay.
+func runExpiryDelayRoles(c *Ctx) {
+	w := c.W
+	n := 0
+	arm := w.calleeIs("Client.addExpireUpdate")
+	for _, f := range moduleFuncs(w) {
+		if f.Pkg == nil || f.Pkg.Pkg.Path() != modPath || len(CallsIn(f, false, arm)) == 0 {
+			continue
+		}
+		n++
+		bad := ""
+		for _, acc := range FieldAccesses(f, "Config", "ClientExpiredSubCloseDelay") {
+			bad = w.InstrPos(acc.In)
+		}
+		c.CheckAt("C36.R9", FuncName(f)+": the connection expiry timer is armed with the connection grace delay", w.Pos(f.Pos()), bad == "",
+			"the subscription grace delay is used for the connection's expiry (at "+bad+"): with different settings a connection refreshed inside its grace window is closed as expired, or an unrefreshed one outlives it")
+	}
+	c.Anchor("C36.R9", "functions arming the connection expiry timer", n >= 2)
+	for _, ci := range CallsIn(w.Func("centrifuge", "(*Client).updatePresence"), false, w.calleeIs("Client.checkSubscriptionExpiration")) {
+		ok := false
+		for _, a := range ci.Common().Args {
+			if strings.Contains(D(a), "ClientExpiredSubCloseDelay") {
+				ok = true
+			}
+		}
+		c.Check("C36.R9", ci, "the subscription expiry check gets the subscription grace delay", ok, "a subscription is expired with the connection's grace delay")
+	}
+}
+
+// runWithheldLeavesPlaceholder (C39.R7): isStreamRecovered builds the recovered list for the merge and
+// marks every publication a filter withholds with a placeholder (Time == -1) so that the merge's gap check
+// sees a contiguous range. In its loop, on every path from a true verdict of publicationFiltered to the next
+// iteration, a value is appended to the result: no verdict leads straight to `continue`.
+func runWithheldLeavesPlaceholder(c *Ctx) {
+	w := c.W
+	fn := w.Func("centrifuge", "isStreamRecovered")
+	if !c.Anchor("C39.R7", "isStreamRecovered", fn) {
+		return
+	}
+	isAppend := func(in ssa.Instruction) bool {
+		call, ok := in.(*ssa.Call)
+		if !ok {
+			return false
+		}
+		b, ok := call.Call.Value.(*ssa.Builtin)
+		return ok && b.Name() == "append"
+	}
+	n := 0
+	for _, b := range fn.Blocks {
+		if len(b.Instrs) == 0 {
+			continue
+		}
+		ifi, ok := b.Instrs[len(b.Instrs)-1].(*ssa.If)
+		if !ok {
+			continue
+		}
+		call, ok := ifi.Cond.(*ssa.Call)
+		if !ok {
+			continue
+		}
+		if cal := w.Callee(call); cal == nil || cal.Name() != "publicationFiltered" {
+			continue
+		}
+		n++
+		// loop header: the block with the range test that dominates b
+		lh := loopHeaderOf(b)
+		bad := PathQ{
+			Stop: isAppend,
+			Goal: func(x ssa.Instruction) bool {
+				return isReturn(x) || (lh != nil && len(lh.Instrs) > 0 && x == lh.Instrs[0])
+			},
+			EdgeCond: func(cond ssa.Value, outcome bool) bool {
+				// a second filter test on the way (a || chain): follow its true edge as well
+				return true
+			},
+		}.FromBlock(b.Succs[0])
+		c.Check("C39.R7", ifi, "a publication a filter withholds leaves a placeholder in the recovered list", bad == nil,
+			"skipped without a placeholder, the offset is a hole the merge cannot tell from a lost publication: with buffered publications present the subscriber is disconnected with insufficient state"+instrAt(w, bad))
+	}
+	c.Anchor("C39.R7", "filter verdicts in isStreamRecovered", n >= 2)
+}
+
+func init() {
+	r4doc("C28", "C28.R4", "K2: Client.Unsubscribe gives up only for a closed connection")
+	round3Hooks["C28"] = append(round3Hooks["C28"], runUnsubscribeOnlySkipsClosed)
+	r4doc("C34", "C34.R4", "K2 (cluster): no script key of the map broker can be the empty string (it would hash to slot 0)")
+	round3Hooks["C34"] = append(round3Hooks["C34"], runNoEmptyScriptKeyInCluster)
+}
+
+// runUnsubscribeOnlySkipsClosed (C28.R4): a connection is registered in the hub and holds its connect-time
+// subscriptions before its status becomes connected. Client.Unsubscribe may return without acting only for
+// a closed connection: every comparison of Client.status in it is an equality test against statusClosed.
+func runUnsubscribeOnlySkipsClosed(c *Ctx) {
+	w := c.W
+	fn := w.Func("centrifuge", "(*Client).Unsubscribe")
+	if !c.Anchor("C28.R4", "(*Client).Unsubscribe", fn) {
+		return
+	}
+	closed, ok := w.ConstInt("centrifuge", "statusClosed")
+	if !c.Anchor("C28.R4", "constant statusClosed", ok) {
+		return
+	}
+	n := 0
+	EachInstr(fn, func(in ssa.Instruction) {
+		b, ok := in.(*ssa.BinOp)
+		if !ok || (b.Op != token.EQL && b.Op != token.NEQ) || !loadsField(b.X, "Client", "status") {
+			return
+		}
+		n++
+		k, isK := constIntOf(b.Y)
+		c.Check("C28.R4", in, "the only state in which Unsubscribe does nothing is statusClosed", isK && k == closed,
+			"a connection that is still connecting is already in the hub with its connect-time subscriptions: skipping it makes Node.Unsubscribe(user, \"\") report success while every subscription stays")
+	})
+	c.Anchor("C28.R4", "status test in Client.Unsubscribe", n >= 1)
+}
+
+// maybeEmptyInCluster: can the string value v be "" on a path on which the shard is a cluster?
+func maybeEmptyInCluster(v ssa.Value, depth int, seen map[ssa.Value]bool) bool {
+	if v == nil || depth > 8 || seen[v] {
+		return false
+	}
+	seen[v] = true
+	if s, ok := constStrOf(v); ok {
+		return s == ""
+	}
+	phi, ok := v.(*ssa.Phi)
+	if !ok {
+		return false // built keys are never empty (prefix + infix)
+	}
+	for i, e := range phi.Edges {
+		if i >= len(phi.Block().Preds) {
+			continue
+		}
+		pred := phi.Block().Preds[i]
+		skip := false
+		for _, g := range GuardsOfBlock(pred) {
+			// not a cluster on this edge
+			if !g.Pol && strings.HasSuffix(D(g.Cond), ".isCluster") {
+				skip = true
+			}
+			// the edge value was just found non-empty
+			if b, ok := g.Cond.(*ssa.BinOp); ok && b.Op == token.EQL && !g.Pol && b.X == e {
+				if s, isS := constStrOf(b.Y); isS && s == "" {
+					skip = true
+				}
+			}
+		}
+		// the predecessor itself may end with the test `e == ""` whose false edge leads here
+		if len(pred.Instrs) > 0 {
+			if ifi, ok := pred.Instrs[len(pred.Instrs)-1].(*ssa.If); ok {
+				if b, ok := ifi.Cond.(*ssa.BinOp); ok && b.Op == token.EQL && b.X == e && len(pred.Succs) == 2 && pred.Succs[1] == phi.Block() {
+					if s, isS := constStrOf(b.Y); isS && s == "" {
+						skip = true
+					}
+				}
+				if strings.HasSuffix(D(ifi.Cond), ".isCluster") && len(pred.Succs) == 2 && pred.Succs[1] == phi.Block() {
+					skip = true
+				}
+			}
+		}
+		if skip {
+			continue
+		}
+		if maybeEmptyInCluster(e, depth+1, seen) {
+			return true
+		}
+	}
+	return false
+}
+
+// runNoEmptyScriptKeyInCluster (C34.R4): in Redis Cluster every key of one script call must hash to the
+// slot of the others; an unused key is therefore passed as the slot-aligned placeholder, never as "". For
+// the KEYS slice of RedisMapBroker.Publish and Remove (the first []string literal handed to Exec), no
+// element can be the empty string on a path where the shard is a cluster.
+func runNoEmptyScriptKeyInCluster(c *Ctx) {
+	w := c.W
+	n := 0
+	for _, name := range []string{"(*RedisMapBroker).Publish", "(*RedisMapBroker).Remove"} {
+		fn := w.Func("centrifuge", name)
+		if fn == nil {
+			continue
+		}
+		for _, f := range WithClosures(fn) {
+			EachInstr(f, func(in ssa.Instruction) {
+				call, ok := in.(*ssa.Call)
+				if !ok || len(call.Call.Args) < 3 {
+					return
+				}
+				cal := call.Call.StaticCallee()
+				if cal == nil || cal.Name() != "Exec" {
+					return
+				}
+				// KEYS: the first []string argument
+				var keys ssa.Value
+				for _, a := range call.Call.Args {
+					if sl, ok := a.Type().Underlying().(*types.Slice); ok {
+						if b, ok := sl.Elem().Underlying().(*types.Basic); ok && b.Kind() == types.String {
+							keys = a
+							break
+						}
+					}
+				}
+				sl, ok := keys.(*ssa.Slice)
+				if !ok {
+					return
+				}
+				al, ok := sl.X.(*ssa.Alloc)
+				if !ok {
+					return
+				}
+				n++
+				bad := ""
+				for _, r := range *al.Referrers() {
+					ia, ok := r.(*ssa.IndexAddr)
+					if !ok {
+						continue
+					}
+					for _, rr := range *ia.Referrers() {
+						if st, ok := rr.(*ssa.Store); ok && st.Addr == ssa.Value(ia) {
+							if maybeEmptyInCluster(st.Val, 0, map[ssa.Value]bool{}) {
+								bad = "KEYS[" + D(ia.Index) + "]"
+							}
+						}
+					}
+				}
+				c.Check("C34.R4", in, "no script key is empty on a cluster shard", bad == "",
+					"an empty key hashes to slot 0 while the other keys of the call carry the partition tag: the script is refused with CROSSSLOT ("+bad+" can be \"\")")
+			})
+		}
+	}
+	c.Anchor("C34.R4", "script calls of the Redis map broker", n >= 2)
+}
